@@ -247,14 +247,14 @@ pub fn check(ctx: &Ctx) -> Check {
         Box::new(RandomPart {
             name: "lib-random",
             rule: "random shapes (1..4 axes, lengths 1..7) x integer/real/sparse values x random fill; same oracle; distinct by (spectrum, fill)",
-            cases: ctx.tier.pick(15_000, 200_000),
+            cases: ctx.tier.pick(15_000, 600_000),
             strategy: Box::new(|| lib_strategy().boxed()),
             eval: Box::new(eval_lib),
         }),
         Box::new(RandomPart {
             name: "cli-fold",
             rule: "sfs fold [--fill nan|zero|minus-one|inf] --precision p [-o file] on text/npy input: printed cells vs the definition at the printed precision; the four keywords map to the four values, default is nan",
-            cases: ctx.tier.pick(1000, 10_000),
+            cases: ctx.tier.pick(1000, 30_000),
             strategy: Box::new(|| cli_strategy().boxed()),
             eval: Box::new(eval_cli),
         }),
